@@ -6,3 +6,8 @@ import CantoVerif.Base.Dec
 import CantoVerif.Model.Coinswap
 import CantoVerif.Spec.Coinswap
 import CantoVerif.Driver.Coinswap
+import CantoVerif.Proofs.CoinswapInv
+import CantoVerif.Proofs.CoinswapArith
+import CantoVerif.Proofs.CoinswapEffects
+import CantoVerif.Proofs.CoinswapWF
+import CantoVerif.Props.C01
